@@ -160,14 +160,21 @@ def check_ranges(p, mrange, vrange, answers, seed_arg):
     # every parameter equals lo + (hi-lo)*u of its own cell (one cell per variable and vector) and lies in range
     used = set()
     for name, vecv, (lo, hi) in (("variances", m.variances, vrange), ("means", m.means, mrange)):
+        # how does the implementation draw this vector?  uniform(lo, hi) cells, or lo + (hi-lo) * uniform(0, 1) cells; any other
+        # way of producing the values is judged on the range only
+        direct = [k for k, c in enumerate(cells) if (c["lo"], c["hi"]) == (float(lo), float(hi))]
+        unit = [k for k, c in enumerate(cells) if (c["lo"], c["hi"]) == (0.0, 1.0)]
         for j in range(p):
             v = float(vecv[j])
             if not (min(lo, hi) - 1e-12 <= v <= max(lo, hi) + 1e-12):
                 out.append(("lganm:ranges-outside", "%s: %s[%d] = %r outside [%s, %s]" % (desc, name, j, v, lo, hi)))
                 continue
-            owners = [k for k, c in enumerate(cells) if k not in used and abs(c["value"] - v) <= 1e-12 and (c["lo"], c["hi"]) == (float(lo), float(hi))]
+            if lo == hi or not (direct or unit):
+                continue
+            owners = [k for k in direct if k not in used and abs(cells[k]["value"] - v) <= 1e-12]
+            owners += [k for k in unit if k not in used and abs(lo + (hi - lo) * cells[k]["frac"] - v) <= 1e-12]
             if not owners:
-                out.append(("lganm:ranges-not-own-cell", "%s: %s[%d] = %r is not lo+(hi-lo)*u of a fresh uniform cell drawn for that range" % (desc, name, j, v)))
+                out.append(("lganm:ranges-not-own-cell", "%s: %s[%d] = %r is not lo+(hi-lo)*u of a fresh uniform cell of its own" % (desc, name, j, v)))
             else:
                 used.add(owners[0])
     return out, tp
